@@ -261,9 +261,6 @@ Proof.
   destruct (fst r); [|reflexivity]. destruct k; reflexivity.
 Qed.
 
-Lemma wp_eq A (m m' : M A) (Q : A -> st -> Prop) s : m s = m' s -> wp m' Q s -> wp m Q s.
-Proof. unfold wp. intros ->. exact (fun H => H). Qed.
-
 Definition clone_post (acc : list nat) (L K P : list nat) (F : bool)
            (Q : bool * list nat -> st -> Prop) : Prop :=
   (forall new s', St s' (new ++ L) K P F -> Q (true, new ++ acc) s') /\
